@@ -20,7 +20,9 @@ func checkC13(c *Ctx, e *Env) {
 	m, r := e1Handlers(c, e)
 	p := m.P
 	noteUndecided(c, m, r, "C13.E1")
-	ruleArith(c, e, "C13.ARITH", func(ep *EntryPoint) bool { return ep.Kind == "msg" && (ep.Key() == "base.Bridge" || ep.Key() == "base.BridgeReceive" || ep.Key() == "base.Cancel") })
+	ruleArith(c, e, "C13.ARITH", func(ep *EntryPoint) bool {
+		return ep.Kind == "msg" && (ep.Key() == "base.Bridge" || ep.Key() == "base.BridgeReceive" || ep.Key() == "base.Cancel")
+	})
 	// ---------------- ONCE
 	keyExprs := map[string][]string{}
 	for _, hk := range []string{"base.MintBatchCredits", "base.CreateBatch", "base.BridgeReceive"} {
